@@ -30,14 +30,21 @@
                        self-refinement-last rule) and the refine loop keep the invariants; the measure
                        #active + alpha * (n + 1 - #blocks) drops with every pick, so the fuel suffices;
                        at exit the partition is stable (C04h_refine_correct).
+      HopSim.v         the concrete run is a run of the abstract step relation (pick_splitter = HS_pick,
+                       refine_block_with_splitter = HS_skip / HS_split): C04h_refine_is_abstract_run.
       HopcroftProofs.v from_partition + remap_nodes build the quotient automaton
                        (C04h_quotient_of_partition_correct); minimize.
 
-   What is *not* covered: the model indexes vectors with [nth _ _ default]; that these defaults are
-   never reached (i.e. that no index of the Rust code is out of bounds) is implied by the invariants
-   proved here but is not stated as a separate strict-model theorem. *)
+      HopStrict.v      the strict reading of the same code: every vector access checked (nth_error),
+                       every usize subtraction checked, slices need start <= end <= len, FastSet
+                       operations need x < max, every debug_assert! is a check, None = panic.  On
+                       well-formed automata it computes exactly what Minimizer.minimize computes
+                       (C04h_minimize_strict): none of the model's [nth _ _ default] / [upd] defaults is
+                       ever reached, no assertion fires, the fuel suffices.  With the pinned
+                       SplitterSet::take_list (self.list[b]) the strict reading fails on the witness of
+                       defect D10 (C04h_example_d10). *)
 Require Import Base CharSet Partition PartitionSpec Automaton BuilderSpec Minimizer NerodeProofs.
-Require Import HopPart HopAbs HopSplit HopLoop HopcroftProofs.
+Require Import HopPart HopAbs HopSplit HopLoop HopSim HopcroftProofs HopStrict.
 From Coq Require Import Relations.
 Open Scope nat_scope.
 
@@ -183,6 +190,20 @@ Theorem C04h_refine_correct : forall n alpha delta isf E, env_ok n alpha delta i
 Proof. exact refine_correct. Qed.
 Print Assumptions C04h_refine_correct.
 
+(* the concrete computation is a run of the abstract algorithm: with conf_of m todo a C = (block ids of
+   the main partition, number of block ids, activity of the splitter lists, todo, a, C), Minimizer::new
+   yields a configuration satisfying the abstract invariant, every pick_splitter is an HS_pick step and
+   every refine_block_with_splitter an HS_skip or HS_split step; the loop stops either with no active
+   splitter or with n blocks *)
+Theorem C04h_refine_is_abstract_run : forall n alpha delta isf E, env_ok n alpha delta isf E ->
+  exists m a C,
+    refine delta (4 * n * alpha + 16) n (mini_new delta isf n alpha) = Some m /\
+    cinv n alpha delta isf E (conf_of (mini_new delta isf n alpha) [] 0 0) /\
+    clos_refl_trans conf (hstep n alpha delta) (conf_of (mini_new delta isf n alpha) [] 0 0) (conf_of m [] a C) /\
+    (km m - 1 < n -> forall D c, ~ actm m D c).
+Proof. exact refine_is_abstract_run. Qed.
+Print Assumptions C04h_refine_is_abstract_run.
+
 (* one step of the loop body, refine_block_with_splitter on the head of the todo list *)
 Theorem C04h_refine_block_step : forall n alpha delta isf E m a C b todo,
   env_ok n alpha delta isf E -> minv n alpha delta E m -> respects n isf (bidm m) -> a < alpha ->
@@ -232,9 +253,35 @@ Theorem C04h_compile_facts : forall a, aut_wf a ->
 Proof. exact compile_facts. Qed.
 Print Assumptions C04h_compile_facts.
 
+(* ---- no panic: the strict reading of partitions.rs / fast_sets.rs / minimizer.rs / minimize (every
+   index, subtraction, slice, FastSet range and debug assertion checked; [false] = take_list after the
+   repair of D10) agrees with the model on every well-formed automaton, hence always returns a correct
+   automaton *)
+Theorem C04h_minimize_strict : forall A, aut_wf A -> minimize_s false A = minimize A.
+Proof. exact minimize_strict. Qed.
+Print Assumptions C04h_minimize_strict.
+
+Theorem C04h_minimize_strict_total : forall A, aut_wf A ->
+  exists B, minimize_s false A = Some B /\ aut_wf B /\ dfa_equiv A B = Some true /\ collapsed B = Some true /\
+            nerode_index A = Some (num_states B).
+Proof. exact minimize_strict_total. Qed.
+Print Assumptions C04h_minimize_strict_total.
+
+(* the same for Minimizer::new + refine over any closed transition function given with checked access *)
+Theorem C04h_refine_strict : forall n alpha delta isf E delta_s isf_s,
+  env_ok n alpha delta isf E ->
+  (forall x c, x < n -> c < alpha -> delta_s x c = Some (delta x c)) ->
+  (forall x, x < n -> isf_s x = Some (isf x)) -> 1 <= alpha ->
+  (do m0 <- mini_new_s false delta_s isf_s n alpha; refine_s false delta_s (4 * n * alpha + 16) n m0) =
+  refine delta (4 * n * alpha + 16) n (mini_new delta isf n alpha).
+Proof. exact refine_strict. Qed.
+Print Assumptions C04h_refine_strict.
+
 (* ---- non-vacuity: the hypothesis aut_wf is satisfiable (the 6-state automaton of C04_example), and on
-   it the theorem's witness is the 4-state automaton the model computes; the witness of defect D10
-   (5 states, a block without incoming transitions must be split) is minimized to 3 states *)
+   it the theorem's witness is the 4-state automaton the model computes.  The witness of defect D10
+   (5 states with pairwise different residual languages; a block without incoming transitions must
+   be split) is returned unchanged by the repaired code, while the strict reading of the pinned
+   take_list (self.list[b]) fails on it -- the checks of the strict model are not vacuous *)
 Example C04h_example :
   match build_unchecked ex_builder with
   | Some A => aut_wfb A = true /\ num_states A = 6 /\
@@ -259,11 +306,20 @@ Definition d10_builder : builder :=
 Example C04h_example_d10 :
   match build_unchecked d10_builder with
   | Some A => aut_wfb A = true /\ num_states A = 5 /\
+              minimize_s true A = None /\ minimize_s false A = minimize A /\
               match minimize A with
-              | Some B => aut_wfb B = true /\ dfa_equiv A B = Some true /\ collapsed B = Some true /\
-                          nerode_index A = Some (num_states B)
+              | Some B => aut_wfb B = true /\ num_states B = 5 /\ dfa_equiv A B = Some true /\
+                          collapsed B = Some true /\ nerode_index A = Some (num_states B)
               | None => False
               end
   | None => False
   end.
+Proof. vm_compute. repeat split; reflexivity. Qed.
+
+(* other checks of the strict reading that do fire outside the invariants: refine_block on a block id
+   that does not exist, pick_splitter on an empty splitter set (l[active_block]) *)
+Example C04h_strict_checks :
+  bp_refine_s (bp_new 3) 2 (fun _ => Some true) = None /\
+  pick_splitter_s {| mn_main := fp_new 1; mn_pred := []; mn_split := []; mn_active_block := 0 |} = None /\
+  fs_insert_s 2 [] 2 = None /\ sub_s 0 1 = None.
 Proof. vm_compute. repeat split; reflexivity. Qed.
